@@ -396,6 +396,14 @@ func (discardingCAS) Put(ctx context.Context, d digest.Digest, b buffer.Buffer) 
 	return err
 }
 
+// failingCAS refuses the upload (after releasing the buffer, as a BlobAccess must).
+type failingCAS struct{ blobstore.BlobAccess }
+
+func (failingCAS) Put(ctx context.Context, d digest.Digest, b buffer.Buffer) error {
+	b.Discard()
+	return errInjected
+}
+
 var closedChan = func() chan struct{} { c := make(chan struct{}); close(c); return c }()
 
 func (x *Exec) node(id int) *Node { return x.M.Nodes[id] }
@@ -1108,7 +1116,11 @@ func (x *Exec) leafOp(op Op) (want, got string) {
 		})
 	case "LeafUpload":
 		upload := func() {
-			p := &virtual.ApplyUploadFile{Context: ctx, ContentAddressableStorage: discardingCAS{}, DigestFunction: x.digestFn, WritableFileUploadDelay: closedChan}
+			var cas blobstore.BlobAccess = discardingCAS{}
+			if op.Salt%7 == 3 {
+				cas = failingCAS{}
+			}
+			p := &virtual.ApplyUploadFile{Context: ctx, ContentAddressableStorage: cas, DigestFunction: x.digestFn, WritableFileUploadDelay: closedChan}
 			got = x.call("VirtualApply(ApplyUploadFile)", func() string {
 				if !leaf.VirtualApply(p) {
 					return "unhandled"
